@@ -80,17 +80,7 @@ def run(rep, tier):
             '%d returns of found elements, guarded by != end(): %s, ends in throw: %s' % (len(rets), guarded, ends_in_throw))
     # R7 checked downcasts
     rep.rule('R7', 'every dynamic_cast whose result is dereferenced is null-tested or covered by the recorded (function, type) guard', floor=10)
-    for f in idx.all_funcs():
-        if f.body is None or f.node.get('isImplicit') or not f.qname.startswith('xcmp::'):
-            continue
-        for use, where, tgt in robust.downcasts(idx, f):
-            if use == 'tested':
-                rep.add('R7', '%s:%s:tested' % (f.qname, tgt), True, where + ' ' + f.qname, 'result is null-tested', nontrivial=False)
-            elif (f.qname, tgt) in DOWNCAST_GUARDS:
-                rep.add('R7', '%s:%s' % (f.qname, tgt), True, where + ' ' + f.qname, DOWNCAST_GUARDS[(f.qname, tgt)], nontrivial=False)
-            else:
-                rep.add('R7', '%s:%s' % (f.qname, tgt), False, where + ' ' + f.qname,
-                        'dynamic_cast<%s> is dereferenced without a null test and without a recorded guard: a node of another class makes it null' % tgt)
+    robust.rule_downcasts(rep, 'R7', idx, 'xcmp::', DOWNCAST_GUARDS)
     # R8 lexer termination
     rep.rule('R8', 'the lexer terminates on every input c EOF EOF ... (every byte c, including inside strings, character constants and comments)', floor=256)
     probs = dict(robust.lexer_terminates(idx, 'xcmp', range(256)))
